@@ -9,6 +9,7 @@ import (
 	"io"
 	"net"
 	"net/http"
+	"net/http/httptrace"
 	"os"
 	"sort"
 	"strconv"
@@ -93,6 +94,7 @@ type h1Obs struct {
 	Extra  int    // bytes that still arrived after an early final response
 	Stream []byte // bytes sent
 	Blocks int    // header blocks sent
+	Pre    int    // of those, interim blocks sent (and read by the client) before the request body
 	Early  bool
 }
 
@@ -100,6 +102,7 @@ type h1Script struct {
 	resps []respSpec
 	obs   []h1Obs
 	done  []chan struct{}
+	gate  func(idx int) // blocks until the client has finished writing request idx (or a timeout)
 }
 
 type h1Origin struct {
@@ -126,8 +129,8 @@ func newH1Origin() (*h1Origin, error) {
 	return o, nil
 }
 
-func (o *h1Origin) register(id string, resps []respSpec) *h1Script {
-	s := &h1Script{resps: resps}
+func (o *h1Origin) register(id string, resps []respSpec, gate func(int)) *h1Script {
+	s := &h1Script{resps: resps, gate: gate}
 	for range resps {
 		s.done = append(s.done, make(chan struct{}))
 	}
@@ -198,21 +201,40 @@ func (o *h1Origin) handle(c net.Conn) {
 			close(sc.done[idx])
 			return
 		}
+		// Ordering (so that what the read loop dumps and what the write loop dumps never race):
+		// with Expect: 100-continue the interim responses go out before the body is read (the
+		// client waits for them); otherwise the whole request is read first, and nothing is sent
+		// before the client has returned from writeRequest (gate).
 		var stream []byte
-		for _, in := range rs.Interim {
-			c.Write([]byte(in))
-			stream = append(stream, in...)
+		expect := rq.Header.Get("Expect") != ""
+		pre := 0
+		if expect {
+			for _, in := range rs.Interim {
+				c.Write([]byte(in))
+				stream = append(stream, in...)
+				pre++
+			}
 		}
 		io.Copy(io.Discard, rq.Body)
 		end := cc.size() - br.Buffered()
 		wire := cc.slice(start, end)
 		start = end
+		if sc.gate != nil {
+			sc.gate(idx)
+		}
+		var late []byte
+		if !expect {
+			for _, in := range rs.Interim {
+				late = append(late, in...)
+			}
+		}
+		stream = append(stream, late...)
 		stream = append(stream, raw...)
 		o.mu.Lock()
-		sc.obs[idx] = h1Obs{Wire: wire, Stream: stream, Blocks: len(rs.Interim) + 1}
+		sc.obs[idx] = h1Obs{Wire: wire, Stream: stream, Blocks: len(rs.Interim) + 1, Pre: pre}
 		o.mu.Unlock()
 		close(sc.done[idx])
-		c.Write(raw)
+		c.Write(append(late, raw...))
 		if rs.Close || rs.Framing == "close" || rs.Truncate > 0 {
 			return
 		}
@@ -439,6 +461,9 @@ func mkResult(resp *req.Response, err error) callRes {
 	if resp != nil && resp.Response != nil {
 		cr.Status, cr.Proto = resp.StatusCode, resp.Proto
 		for k, vs := range resp.Header {
+			if k == "Date" {
+				continue // set by the h2 / h3 reference servers from their clock
+			}
 			for _, v := range vs {
 				cr.Header = append(cr.Header, k+": "+v)
 			}
@@ -513,20 +538,67 @@ func finishDump(c *req.Client, resp *req.Response, rq *req.Request, cfg *dumpCfg
 	return out
 }
 
-func h1Run(o *h1Origin, id string, ex exSpec, cfg *dumpCfg) (runOut, *h1Script) {
-	sc := o.register(id, ex.Resps)
+// wroteCounter counts httptrace.WroteRequest events of one run; the origins wait on it before
+// they answer request idx, so that the response is never read (and dumped by the read loop)
+// while the write loop is still dumping the tail of the request.
+type wroteCounter struct {
+	mu sync.Mutex
+	n  int
+	ch chan struct{}
+}
+
+func newWroteCounter() *wroteCounter { return &wroteCounter{ch: make(chan struct{}, 64)} }
+
+func (w *wroteCounter) wrote() {
+	w.mu.Lock()
+	w.n++
+	w.mu.Unlock()
+	select {
+	case w.ch <- struct{}{}:
+	default:
+	}
+}
+
+func (w *wroteCounter) waitFor(idx int) {
+	deadline := time.After(5 * time.Second)
+	for {
+		w.mu.Lock()
+		ok := w.n > idx
+		w.mu.Unlock()
+		if ok {
+			return
+		}
+		select {
+		case <-w.ch:
+		case <-time.After(20 * time.Millisecond):
+		case <-deadline:
+			return
+		}
+	}
+}
+
+var debugW = os.Stderr
+
+func debugSlow(off, on runOut) bool {
+	return os.Getenv("C13_DEBUG") != "" && (off.Elapsed > 400*time.Millisecond || on.Elapsed > 400*time.Millisecond)
+}
+
+const watchdog = 25 * time.Second
+
+// runClient performs one side of a pair on the real client, contained (panic / hang).
+func runClient(c *req.Client, url string, ex exSpec, id string, cfg *dumpCfg, wc *wroteCounter) runOut {
 	s := newSink()
-	addr := o.ln.Addr().String()
-	c := req.C().SetTimeout(10 * time.Second).SetDial(func(ctx context.Context, network, _ string) (net.Conn, error) {
-		var d net.Dialer
-		return d.DialContext(ctx, network, addr)
-	})
+	c.SetTimeout(10 * time.Second)
 	c.GetTransport().ReadBufferSize = ex.ReadBuf
+	c.GetTransport().SetExpectContinueTimeout(30 * time.Second)
 	if ex.Retry {
 		c.SetCommonRetryCount(1).SetCommonRetryFixedInterval(time.Millisecond).
 			SetCommonRetryCondition(func(resp *req.Response, err error) bool { return err == nil && resp.StatusCode == 500 })
 	}
 	rq := c.R().SetHeader("X-Case", id)
+	rq.SetContext(httptrace.WithClientTrace(context.Background(), &httptrace.ClientTrace{
+		WroteRequest: func(httptrace.WroteRequestInfo) { wc.wrote() },
+	}))
 	for _, h := range ex.Headers {
 		rq.Headers.Add(h[0], h[1])
 	}
@@ -553,18 +625,37 @@ func h1Run(o *h1Origin, id string, ex exSpec, cfg *dumpCfg) (runOut, *h1Script) 
 				ch <- rr{nil, fmt.Errorf("panic: %v", p)}
 			}
 		}()
-		resp, err := rq.Send(ex.Method, "http://c13.test"+ex.Path)
+		resp, err := rq.Send(ex.Method, url)
 		ch <- rr{resp, err}
 	}()
 	var got rr
 	select {
 	case got = <-ch:
-	case <-time.After(25 * time.Second):
+	case <-time.After(watchdog):
 		out.Hang = true
 	}
 	out.Elapsed = time.Since(t0)
 	if !out.Hang {
 		out.Res = mkResult(got.resp, got.err)
+		out.Sink = finishDump(c, got.resp, rq, cfg, s)
+	} else {
+		out.Res = callRes{Err: "hang"}
+		out.Sink = s.snapshot()
+	}
+	c.GetTransport().CloseIdleConnections()
+	return out
+}
+
+func h1Run(o *h1Origin, id string, ex exSpec, cfg *dumpCfg) (runOut, *h1Script) {
+	wc := newWroteCounter()
+	sc := o.register(id, ex.Resps, wc.waitFor)
+	addr := o.ln.Addr().String()
+	c := req.C().SetDial(func(ctx context.Context, network, _ string) (net.Conn, error) {
+		var d net.Dialer
+		return d.DialContext(ctx, network, addr)
+	})
+	out := runClient(c, "http://c13.test"+ex.Path, ex, id, cfg, wc)
+	if !out.Hang {
 		// wait until the origin has finished recording every hit that was started
 		for i := range sc.done {
 			o.mu.Lock()
@@ -577,12 +668,7 @@ func h1Run(o *h1Origin, id string, ex exSpec, cfg *dumpCfg) (runOut, *h1Script) 
 				}
 			}
 		}
-		out.Sink = finishDump(c, got.resp, rq, cfg, s)
-	} else {
-		out.Res = callRes{Err: "hang"}
-		out.Sink = s.snapshot()
 	}
-	c.GetTransport().CloseIdleConnections()
 	return out, sc
 }
 
@@ -619,6 +705,9 @@ func dechunk(b []byte) (chunks [][]byte, ok bool) {
 }
 
 func headerBlocks(stream []byte, blocks int) []byte {
+	if blocks == 0 {
+		return nil
+	}
 	off := 0
 	for i := 0; i < blocks; i++ {
 		j := bytes.Index(stream[off:], []byte("\r\n\r\n"))
@@ -657,7 +746,9 @@ func h1PartsOf(ob h1Obs, rs respSpec, method string, finalBody []byte, isFinal b
 		p.parts.ReqBody = bytes.Join(p.chunks, nil)
 		p.parts.ReqBodySep = []byte("\r\n")
 	}
-	p.parts.RespHeader = headerBlocks(ob.Stream, ob.Blocks)
+	all := headerBlocks(ob.Stream, ob.Blocks)
+	p.parts.RespHeaderPre = headerBlocks(ob.Stream, ob.Pre)
+	p.parts.RespHeader = all[len(p.parts.RespHeaderPre):]
 	switch {
 	case isFinal && rs.Truncate > 0:
 		p.parts.RespBody = rs.body[:rs.Truncate]
@@ -674,18 +765,18 @@ func h1PartsOf(ob h1Obs, rs respSpec, method string, finalBody []byte, isFinal b
 	return p
 }
 
-func coqChunks(has bool, chunks [][]byte) string {
+func coqChunks(has bool, chunks [][]byte, pl *pool) string {
 	if !has {
 		return "None"
 	}
 	var cs []string
 	for _, c := range chunks {
-		cs = append(cs, cb(c))
+		cs = append(cs, pl.enc(c))
 	}
 	return "(Some " + hk.CoqList(cs) + ")"
 }
 
-func coqReads(p partsObs) string {
+func coqReads(p partsObs, pl *pool) string {
 	if p.NoResp {
 		return "[]"
 	}
@@ -693,7 +784,7 @@ func coqReads(p partsObs) string {
 	if p.RespEOF {
 		st = "REnd"
 	}
-	return "[(" + cb(p.RespBody) + ", " + st + ")]"
+	return "[(" + pl.enc(p.RespBody) + ", " + st + ")]"
 }
 
 // ---------- the pairs ----------
@@ -716,8 +807,8 @@ func h1Pairs(r *hk.Run, rng *hk.Rand, count int) {
 		id := fmt.Sprintf("h1-%d", i)
 		off, scOff := h1Run(o, id, ex, nil)
 		on, scOn := h1Run(o, id, ex, &cfg)
-		if os.Getenv("C13_DEBUG") != "" && (off.Elapsed > 400*time.Millisecond || on.Elapsed > 400*time.Millisecond) {
-			fmt.Fprintf(os.Stderr, "slow %s %s off=%v on=%v %s/%s\n", ex.Shape, cfg.shape(), off.Elapsed, on.Elapsed, off.Res.Err, on.Res.Err)
+		if debugSlow(off, on) {
+			fmt.Fprintf(debugW, "slow h1 %s %s off=%v on=%v %s/%s\n", ex.Shape, cfg.shape(), off.Elapsed, on.Elapsed, off.Res.Err, on.Res.Err)
 		}
 		r.Count("h1.shape=" + ex.Shape)
 		r.Count("h1.method=" + ex.Method)
@@ -746,23 +837,37 @@ func h1Pairs(r *hk.Run, rng *hk.Rand, count int) {
 		// faithfulness
 		var xs []partsObs
 		var coqX []string
+		var hps []h1Parts
+		pl := &pool{}
 		for k, ob := range obOn {
 			final := k == len(obOn)-1
 			p := h1PartsOf(ob, ex.Resps[k], ex.Method, on.Res.Body, final, on.Res.Err)
 			xs = append(xs, p.parts)
+			hps = append(hps, p)
+			pl.add(p.hdr)
+			for _, c := range p.chunks {
+				pl.add(c)
+			}
+			pl.add(p.parts.RespHeaderPre)
+			pl.add(p.parts.RespHeader)
+			pl.add(p.parts.RespBody)
+			pl.add(ex.Resps[k].body)
+		}
+		for k, ob := range obOn {
+			p := hps[k]
 			n := ex.ReadBuf
 			if n == 0 {
 				n = 4096
 			}
-			coqX = append(coqX, fmt.Sprintf("X1 %s %s %s %s %s %s %s %s", cb(p.hdr), coqChunks(p.hasB, p.chunks), hk.CoqBool(p.chunkd),
-				cb(ob.Wire), hk.CoqNat(n), cb(ob.Stream), hk.CoqNat(ob.Blocks), coqReads(p.parts)))
+			coqX = append(coqX, fmt.Sprintf("X1 %s %s %s %s %s %s %s %s %s", pl.enc(p.hdr), coqChunks(p.hasB, p.chunks, pl), hk.CoqBool(p.chunkd),
+				pl.enc(ob.Wire), hk.CoqNat(n), pl.enc(ob.Stream), hk.CoqNat(ob.Pre), hk.CoqNat(ob.Blocks), coqReads(p.parts, pl)))
 		}
 		want := expectedContents(cfg, xs)
 		if which, g, w, ok := compareContents(on.Sink, want); !ok {
 			failOnce(r, hk.Failure{Sig: "faithful:" + which + ":" + sigBase, What: "content of a dump writer is not exactly the selected parts routed to it", Input: in, Got: g, Want: w})
 		}
 		nt := cfg.anyOn() && (ex.BodyLen > 0 || ex.Resps[len(ex.Resps)-1].BodyLen > 0 || len(ex.Resps) > 1 || strings.Contains(ex.Shape, "longhdr") || ex.ReadBuf != 0)
-		r.Add(hk.Case{Coq: fmt.Sprintf("ExchCase %s %s %s %s", coqOptOpt(cfg.Client, 0), coqOptOpt(cfg.Request, 1), hk.CoqList(coqX), coqObs(on.Sink)),
+		r.Add(hk.Case{Coq: pl.wrap(fmt.Sprintf("ExchCase %s %s %s %s", coqOptOpt(cfg.Client, 0), coqOptOpt(cfg.Request, 1), hk.CoqList(coqX), coqObs(on.Sink, pl))),
 			Desc: map[string]interface{}{"kind": "h1", "exchange": ex, "dump": cfg}},
 			"h1|"+keyOf(in), nt)
 	}
